@@ -53,6 +53,7 @@ def run(ctx):
         ctx.sample({"script": " ".join(c["env"]), "observed": tc.brief(c)})
     ctx.cov["connections_OK"] = len(ok)
     ctx.cov["bytes_relayed"] = sum(c["wtr"] + c["wcr"] for c in ok)
+    tc.finish(ctx)
     vlib.write_evidence(ctx, "model_checking",
                         "TLC enumerates every behaviour of the relay model for <=3 chunks each way; simulated behaviours "
                         "(pairwise distinct as sequences of environment actions and observations, balanced over the number "
